@@ -6,8 +6,9 @@
            startTimer, stopTimer) is one Gallina function of the same name; every Go `switch
            f.state` is one Gallina `match st f`.  The model carries a [variant]:
              Defective = what fsm.go does today,
-             Repaired  = fsm.go with fixes/C05_fsm_rfc1661_cells.patch applied
-           (they differ in the cells marked  (* CELL *)  below and nowhere else).
+             Repaired  = fsm.go with fixes/C05_fsm_rfc1661_cells.patch and
+                         fixes/C05_ncp_lcp_only_codes.patch applied
+           (they differ in the places marked  (* CELL *)  below and nowhere else).
    Part 2: an independent transcription of the RFC 1661 section 4.1 state transition table
            (from the RFC text, not from the code) and the classification of a concrete
            event into the RFC's event classes.
@@ -26,7 +27,12 @@ Definition st_num (s : St) : Z :=
 
 Definition st_eqb (a b : St) : bool := st_num a =? st_num b.
 
-Inductive variant := Repaired | Defective.
+(* Which of the two repairs are applied: fix_cells = fixes/C05_fsm_rfc1661_cells.patch (eleven table
+   cells + timer on zrc), fix_ncp = fixes/C05_ncp_lcp_only_codes.patch (codes 8-11 are unknown codes
+   to an NCP). *)
+Record variant := mkVariant { fix_cells : bool; fix_ncp : bool }.
+Definition Repaired : variant := mkVariant true true.      (* both patches *)
+Definition Defective : variant := mkVariant false false.   (* fsm.go as it stands *)
 
 (* What the OptionHandler (and ParseOptions) make of a received Configure-Request:
    CMalformed = ParseOptions returned an error;
@@ -50,8 +56,9 @@ Inductive Act :=
 | Ser (id : Z)                  (* Echo-Reply *)
 | Tlu | Tld | Tls | Tlf.
 
-Record cfg := mkCfg { maxConf : Z; maxTerm : Z }.
-Definition default_cfg : cfg := mkCfg 10 2.          (* NewFSM: maxConf 10, maxTerm 2 *)
+(* lcp = (f.proto == ProtoLCP) *)
+Record cfg := mkCfg { maxConf : Z; maxTerm : Z; lcp : bool }.
+Definition default_cfg : cfg := mkCfg 10 2 true.     (* NewFSM: maxConf 10, maxTerm 2 *)
 
 (* type FSM: state, id, restartCount, failCount, lastReqID; timer != nil (and not yet fired) is
    [armed]; [out] accumulates (in reverse) what the callbacks saw during the current event. *)
@@ -134,7 +141,7 @@ Definition open (c : cfg) (v : variant) (f : fsm) : fsm :=
   | Initial => f |> tls |> set_st Starting
   | Closed => f |> irc c |> scr |> set_st ReqSent
   | Closing =>                                               (* CELL Open/Closing *)
-      match v with Repaired => set_st Stopping f | Defective => f end
+      if fix_cells v then set_st Stopping f else f
   | _ => f
   end.
 
@@ -202,10 +209,8 @@ Definition rcaEvent (c : cfg) (v : variant) (id : Z) (f : fsm) : fsm :=
   | ReqSent => f |> irc c |> set_st AckRcvd
   | AckRcvd => f |> scr |> set_st ReqSent
   | AckSent =>                                               (* CELL RCA/Ack-Sent: irc *)
-      match v with
-      | Repaired => f |> stopTimer |> irc c |> tlu |> set_st Opened
-      | Defective => f |> stopTimer |> tlu |> set_st Opened
-      end
+      if fix_cells v then f |> stopTimer |> irc c |> tlu |> set_st Opened
+      else f |> stopTimer |> tlu |> set_st Opened
   | Opened => f |> tld |> scr |> set_st ReqSent
   | _ => f
   end.
@@ -218,10 +223,8 @@ Definition rcnEvent (c : cfg) (v : variant) (id : Z) (f : fsm) : fsm :=
   | ReqSent => f |> irc c |> scr
   | AckRcvd => f |> scr |> set_st ReqSent
   | AckSent =>                                               (* CELL RCN/Ack-Sent *)
-      match v with
-      | Repaired => f |> irc c |> scr
-      | Defective => f |> irc c |> scr |> set_st ReqSent
-      end
+      if fix_cells v then f |> irc c |> scr
+      else f |> irc c |> scr |> set_st ReqSent
   | Opened => f |> tld |> scr |> set_st ReqSent
   | _ => f
   end.
@@ -232,15 +235,11 @@ Definition rtrEvent (v : variant) (id : Z) (f : fsm) : fsm :=
   | Closed | Stopped | Closing | Stopping => sta id f
   | ReqSent => sta id f
   | AckRcvd | AckSent =>                                     (* CELL RTR/Ack-Rcvd, RTR/Ack-Sent *)
-      match v with
-      | Repaired => f |> sta id |> set_st ReqSent
-      | Defective => sta id f
-      end
+      if fix_cells v then f |> sta id |> set_st ReqSent
+      else sta id f
   | Opened =>                                                (* CELL RTR/Opened: timer *)
-      match v with
-      | Repaired => f |> tld |> zrc |> startTimer |> sta id |> set_st Stopping
-      | Defective => f |> tld |> zrc |> sta id |> set_st Stopping
-      end
+      if fix_cells v then f |> tld |> zrc |> startTimer |> sta id |> set_st Stopping
+      else f |> tld |> zrc |> sta id |> set_st Stopping
   | _ => f
   end.
 
@@ -250,9 +249,9 @@ Definition rtaEvent (v : variant) (f : fsm) : fsm :=
   | Closing => f |> stopTimer |> tlf |> set_st Closed
   | Stopping => f |> stopTimer |> tlf |> set_st Stopped
   | AckRcvd =>                                               (* CELL RTA/Ack-Rcvd *)
-      match v with Repaired => set_st ReqSent f | Defective => f end
+      if fix_cells v then set_st ReqSent f else f
   | AckSent =>                                               (* CELL RTA/Ack-Sent *)
-      match v with Repaired => f | Defective => set_st ReqSent f end
+      if fix_cells v then f else set_st ReqSent f
   | Opened => f |> tld |> scr |> set_st ReqSent
   | _ => f
   end.
@@ -263,11 +262,11 @@ Definition rxjEvent (c : cfg) (v : variant) (f : fsm) : fsm :=
   | ReqSent | AckRcvd | AckSent => f |> tlf |> set_st Stopped
   | Opened => f |> tld |> irc c |> str c |> set_st Stopping
   | Closed | Stopped =>                                      (* CELL RXJ-/Closed, RXJ-/Stopped *)
-      match v with Repaired => tlf f | Defective => f end
+      if fix_cells v then tlf f else f
   | Closing =>                                               (* CELL RXJ-/Closing *)
-      match v with Repaired => f |> stopTimer |> tlf |> set_st Closed | Defective => f end
+      if fix_cells v then f |> stopTimer |> tlf |> set_st Closed else f
   | Stopping =>                                              (* CELL RXJ-/Stopping *)
-      match v with Repaired => f |> stopTimer |> tlf |> set_st Stopped | Defective => f end
+      if fix_cells v then f |> stopTimer |> tlf |> set_st Stopped else f
   | _ => f
   end.
 
@@ -290,7 +289,13 @@ Definition code_of (z : Z) : Code :=
   else if z =? 10 then KEchoRep else if z =? 11 then KDiscReq else KUnknown.
 
 (* func (f *FSM) Input(code, id, data) *)
+Definition lcp_only (k : Code) : bool :=
+  match k with KProtoRej | KEchoReq | KEchoRep | KDiscReq => true | _ => false end.
+
 Definition input (c : cfg) (v : variant) (code id : Z) (k : Cls) (dlen : Z) (f : fsm) : fsm :=
+  if fix_ncp v && negb (lcp c) && lcp_only (code_of code)
+  then rucEvent code id f                                    (* CELL codes 8-11 at an NCP *)
+  else
   match code_of code with
   | KConfReq => rcrEvent c id k f
   | KConfAck => rcaEvent c v id f
@@ -478,13 +483,17 @@ Definition rfc1661 (s : St) (e : REv) : option (list RAct * St) :=
      (RFC 1661 5.2-5.4);
    - Echo-Request without a Magic-Number field;
    - Protocol-Reject outside Opened (5.7); in Opened it is a non-catastrophic RXJ+.
+   Protocol-Reject, Echo-Request, Echo-Reply and Discard-Request are LCP codes (RFC 1661 5.7-5.9); IPCP
+   and IPv6CP define codes 1-7 only and treat every other code as unknown (RFC 1332 section 3,
+   RFC 5072 section 3): for an NCP they are RUC.
    Every Code-Reject is RXJ- : this implementation sends codes 1-7 and 10 only, a rejection of any
    of which is catastrophic. *)
-Definition classify (f : fsm) (e : Ev) : option REv :=
+Definition classify (c : cfg) (f : fsm) (e : Ev) : option REv :=
   match e with
   | EUp => Some RUp | EDown => Some RDown | EOpen => Some ROpen | EClose => Some RClose
   | ETimeout => Some (if restart f >? 0 then RTOp else RTOm)
   | EInput code id k dlen =>
+    if negb (lcp c) && lcp_only (code_of code) then Some RUC else
     match code_of code with
     | KConfReq => match k with CMalformed => None | CGood => Some RCRp | _ => Some RCRm end
     | KConfAck => if id =? lastReq f then Some RCA else None
@@ -523,8 +532,8 @@ Fixpoint racts_eqb (x y : list RAct) : bool :=
    - legal cell: same next state, same action list;
    - "-" cell: nothing happens, except that an unknown code is still answered by a Code-Reject
      (Initial/Starting; the RFC leaves these cells open). *)
-Definition conformsb (f : fsm) (e : Ev) (f' : fsm) : bool :=
-  match classify f e with
+Definition conformsb (c : cfg) (f : fsm) (e : Ev) (f' : fsm) : bool :=
+  match classify c f e with
   | None => st_eqb (st f') (st f) && racts_eqb (map abs_act (outs f')) []
   | Some re =>
     match rfc1661 (st f) re with
